@@ -145,11 +145,6 @@ def WellFormed (st : Statement) : Prop :=
   (∀ sel, st.selectStmt? = some sel → selectWF sel = true) ∧
   (∀ sel, st.kind = .CreateContinuousQueryStatement → st.selectStmt? = some sel → sel.target.isSome = true)
 
-theorem selectStmt?_of_kind (st : Statement)
-    (h : st.kind = .SelectStatement ∨ st.kind = .ExplainStatement ∨ st.kind = .CreateContinuousQueryStatement) :
-    ∃ sel, st.selectStmt? = some sel := by
-  cases st <;> simp [Statement.kind] at h <;> exact ⟨_, rfl⟩
-
 theorem rule_of_kind (st : Statement) : ∃ r, lookupRule st.kind privTable = some r ∧ ruleOK st.kind r = true := by
   have hc := List.all_eq_true.1 gen_table_complete st.kind (mem_all_kinds st.kind)
   cases hr : lookupRule st.kind privTable with
